@@ -185,6 +185,43 @@ func c02Attrs(e *Env, viol func(kind, sig, what, chk string, rep any), mu *sync.
 			}
 		}
 	}
+	// --- MySQL ENUM / SET value lists (labels are compared exactly: order and letter case matter) ---
+	lists := [][]string{{"on", "off"}, {"ON", "off"}, {"off", "on"}, {"on", "off", "x"}, {"on"}, {"On", "Off"}}
+	for _, kind := range []string{"enum", "set"} {
+		mk := func(vals []string) *schema.Schema {
+			s := schema.New("public").SetCharset("utf8mb4").SetCollation("utf8mb4_bin")
+			t := schema.NewTable("t").SetSchema(s).SetCharset("utf8mb4").SetCollation("utf8mb4_bin")
+			var ty schema.Type = &schema.EnumType{T: "enum", Values: append([]string{}, vals...)}
+			if kind == "set" {
+				ty = &mysql.SetType{Values: append([]string{}, vals...)}
+			}
+			t.AddColumns(schema.NewIntColumn("id", "int"), schema.NewColumn("c").SetType(ty).SetCharset("utf8mb4").SetCollation("utf8mb4_bin"))
+			s.AddTables(t)
+			return s
+		}
+		for _, a := range lists {
+			for _, b := range lists {
+				id := fmt.Sprintf("mysql %s values: %v -> %v", kind, a, b)
+				want := fmt.Sprint(a) != fmt.Sprint(b)
+				count(id, want, "dialect:mysql")
+				rep := map[string]any{"dialect": "mysql", "case": id}
+				cs, err := mysql.DefaultDiff.SchemaDiff(mk(a), mk(b), schema.DiffNormalized())
+				if err != nil {
+					viol("failing-input", "diff-error", fmt.Sprintf("%s: SchemaDiff fails: %v", id, err), "Props.C02", rep)
+					continue
+				}
+				fl := flat(cs)
+				switch {
+				case !want && len(fl) > 0:
+					viol("failing-input", "spurious-change", fmt.Sprintf("%s: SchemaDiff reports %s", id, describeChanges(fl)), "Props.C02 exactness", rep)
+				case want:
+					if mc, ok := one[*schema.ModifyColumn](fl); !ok || mc.From.Name != "c" || mc.Change != schema.ChangeType {
+						viol("failing-input", "diff-not-exact", fmt.Sprintf("%s: the value list of column c was edited, SchemaDiff reports %s", id, describeChanges(fl)), "Props.C02 exactness", rep)
+					}
+				}
+			}
+		}
+	}
 	// --- MySQL table engine ---
 	engines := []string{"", "InnoDB", "innodb", "MyISAM", "MEMORY"}
 	normE := func(s string) string {
